@@ -39,6 +39,7 @@ type Strip struct {
 	Absent  bool       `json:"absent"`
 	Es      []Entry    `json:"es"`
 	Removed [][]string `json:"removed"`
+	Fuzzy   [][]string `json:"fuzzy"` // map fields with something removed inside a value: locations below are not decided
 	Changed bool       `json:"changed"`
 }
 
@@ -193,7 +194,7 @@ func render(c *Case) string {
 	}
 	fmt.Fprintf(&sb, "  optional Sub sub = 20%s;\n  repeated int32 ri = 21;\n  repeated string rs = 22;\n", c.fieldOpts("Opt.sub"))
 	fmt.Fprintf(&sb, "  repeated Sub rm = 23%s;\n  map<string, int32> mp = 24;\n", c.fieldOpts("Opt.rm"))
-	fmt.Fprintf(&sb, "  optional group Grp = 25%s { optional int32 g = 1; }\n  optional google.protobuf.Any any = 26;\n  extensions 100 to 199;\n}\n", c.fieldOpts("Opt.grp"))
+	fmt.Fprintf(&sb, "  optional group Grp = 25%s { optional int32 g = 1; }\n  optional google.protobuf.Any any = 26;\n  map<string, Sub> mm = 27;\n  extensions 100 to 199;\n}\n", c.fieldOpts("Opt.grp"))
 	fmt.Fprintf(&sb, "extend Opt { optional int32 oext = 100%s; optional Sub osub = 101; }\n", c.fieldOpts("oext"))
 	fmt.Fprintf(&sb, "extend google.protobuf.%s {\n", optionsMsgOf[c.Kind])
 	for i, t := range valueTypes {
